@@ -5,7 +5,7 @@
 //            [--data /verif/data] [--wpt /repo/tests/wpt] [--tools /verif/tools] [--only stage,stage] [--deadline s]
 //
 // C06 stages (each exhaustive on its finite domain, judged by refidna = UTS46/NFC/RFC 3492/RFC 5892/RFC 5893 over
-// vendored Unicode 17 data):  map | nfc | puny | compose | labelseq | url | audit | wpt
+// vendored Unicode 17 data):  map | nfc | puny | compose | labelseq | url | cprt | audit | wpt
 // C16 stages (metamorphic; refidna is used only as a *filter*: a pair of spellings is judged only if the Standard
 // itself gives both the same result):  orbit | labels
 #include <set>
@@ -662,6 +662,45 @@ static void stage_url(int sh, int ns, bool T) {
   enum_sigma(num, 1, T ? 5 : 4, sh, ns, ord, f);
 }
 
+// ------------------------------------------------------------------------------------------------ stage: cprt
+// Exhaustive single-code-point round trip: every IDNA-valid code point c as the labels {c}, {a c}, {c a} through to_ascii
+// (vs the model) and, when an A-label comes out, back through to_unicode (must decode exactly what the model decodes);
+// and the UTF-8/UTF-32 helpers against each other and against the reference encoder on EVERY scalar value, alone,
+// repeated 2-3 times and between ASCII.  Walks every length boundary (7F/80, 7FF/800, FFFF/10000, 10FFFF) by construction.
+static void transcode_one(const U32& s32) {
+  std::string w = wit("transcode", s32).done();
+  set_case(w);
+  std::string u = u8(s32);
+  R.evaluations++; R.counters["traces_validated"]++; R.counters["transcode_strings"]++;
+  size_t l8 = ada::idna::utf8_length_from_utf32(s32.data(), s32.size());
+  std::string o8(std::max<size_t>(l8, u.size()) + 8, '\0');
+  size_t w8 = ada::idna::utf32_to_utf8(s32.data(), s32.size(), o8.data());
+  size_t l32 = ada::idna::utf32_length_from_utf8(u.data(), u.size());
+  U32 o32(std::max<size_t>(l32, s32.size()) + 8, 0);
+  size_t w32 = ada::idna::utf8_to_utf32(u.data(), u.size(), o32.data());
+  std::string bad;
+  if (l8 != u.size()) bad = "utf8_length_from_utf32 = " + std::to_string(l8) + ", UTF-8 has " + std::to_string(u.size()) + " bytes";
+  else if (w8 != u.size() || o8.substr(0, w8) != u) bad = "utf32_to_utf8 wrote " + std::to_string(w8) + " bytes " + hex(o8.substr(0, std::min<size_t>(w8, 16))) + ", UTF-8 is " + hex(u);
+  else if (l32 != s32.size()) bad = "utf32_length_from_utf8 = " + std::to_string(l32) + ", expected " + std::to_string(s32.size());
+  else if (w32 != s32.size() || o32.substr(0, w32) != s32) bad = "utf8_to_utf32 gave [" + cps(o32.substr(0, std::min<size_t>(w32, 8))) + "]";
+  if (!bad.empty()) viol("transcode/helpers-disagree", "[" + cps(s32) + "]: " + bad, w, s32.size());
+}
+static void stage_cprt(int sh, int ns) {
+  for (uint64_t c = 0; c <= 0x10FFFF; c++) {
+    if (c >= 0xD800 && c <= 0xDFFF) continue;
+    if (int(c % ns) != sh) continue;
+    if (out_of_time()) return;
+    char32_t cp = (char32_t)c;
+    transcode_one(U32{cp}); transcode_one(U32{cp, cp}); transcode_one(U32{cp, cp, cp}); transcode_one(U32{U'a', cp, U'b'});
+    if (cp < 0x80 || !valid_status(cp)) continue;
+    for (const U32& x : {U32{cp}, U32{U'a', cp}, U32{cp, U'a'}}) {
+      R.counters["cp_roundtrip_labels"]++;
+      TA t = judge_to_ascii(x, "cp-roundtrip");
+      if (t.got && t.got->find("xn--") != std::string::npos) judge_to_unicode(*t.got, "cp-roundtrip");
+    }
+  }
+}
+
 // ------------------------------------------------------------------------------------------------ stage: audit
 static void audit_cp(char32_t c) {
   bool valid = valid_status(c);
@@ -960,6 +999,7 @@ static int replay(const std::string& path) {
   else if (sub == "to_ascii") judge_to_ascii(x, "replay");
   else if (sub == "to_unicode") judge_to_unicode(u8(x), "replay");
   else if (sub == "to_unicode-any") { std::string o; if (!ada::idna::to_unicode(u8(x), o)) viol("to_unicode/returned-false", "returned false", "{}", 0); }
+  else if (sub == "transcode") transcode_one(x);
   else if (sub == "puny-enc") judge_puny_enc(x);
   else if (sub == "puny-dec") { std::string s; for (char32_t c : x) s.push_back(char(c)); judge_puny_dec(s); }
   else if (sub == "url-parse" || sub == "url-sethost") {
@@ -1010,6 +1050,7 @@ int main(int argc, char** argv) {
     run("compose", [&] { stage_compose(sh, ns, T); });
     run("labelseq", [&] { stage_labelseq(sh, ns, T); });
     run("url", [&] { stage_url(sh, ns, T); });
+    run("cprt", [&] { stage_cprt(sh, ns); });
     run("audit", [&] { stage_audit(sh, ns); });
     run("wpt", [&] { stage_wpt(sh); });
     extra["sigma_idna"] = std::to_string(sigma_idna().size());
